@@ -135,9 +135,42 @@ def gen_thr_input(rng, i, boundary_heavy=False):
         # float32 score arrays (values exactly representable; comparisons with float64 thresholds are exact in NumPy)
         pos, neg = [float(np.float32(x)) for x in pos], [float(np.float32(x)) for x in neg]
         f4dt = True
+    dtp = dtn = None
+    if not intdt and not f4dt and rng.random() < 0.16:
+        # per-class dtypes: unsigned integers (differences wrap, negation is not a mirror image) and MIXED dtypes (integer
+        # positives with fractional negatives, float32 with float64): whatever merges the two classes must promote, not cast
+        kind = rng.choice(["uu", "uu", "if", "if", "fi", "4f", "f4"])
+        if kind == "uu":
+            dtp = dtn = rng.choice(["u1", "u2"])
+            pos, neg = [float(abs(round(x)) % 250) for x in pos], [float(abs(round(x)) % 250) for x in neg]
+        elif kind == "if":
+            dtp, dtn = "i8", "f8"
+            pos = [float(round(x)) for x in pos]
+        elif kind == "fi":
+            dtp, dtn = "f8", "i8"
+            neg = [float(round(x)) for x in neg]
+        elif kind == "4f":
+            dtp, dtn = "f4", "f8"
+            pos = [float(np.float32(x)) for x in pos]
+        else:
+            dtp, dtn = "f8", "f4"
+            neg = [float(np.float32(x)) for x in neg]
+    prior_calls = None
+    if rng.random() < 0.3:
+        # earlier queries on the SAME object, in a random order (a cache keyed too coarsely shows only for some orders)
+        prior_calls = []
+        for _ in range(rng.randint(1, 4)):
+            m_ = rng.choice(gen.METRICS + ["cm", "rate"])
+            if m_ == "cm":
+                prior_calls.append(["cm", [0.0, 1.0]])
+            elif m_ == "rate":
+                prior_calls.append([rng.choice(gen.METRICS), 0.5])
+            else:
+                prior_calls.append(["threshold_at_" + m_, rng.choice([0.5, 0.25, 0.0, 1.0, rng.random()]),
+                                    rng.choice(gen.METHODS)])
     inp = {"stream": stream, "pos": pos, "neg": neg, "ep": ep, "en": en, "sc": sc, "ec": ec,
            "metric": metric, "alias": rng.random() < 0.3, "scalar": rng.random() < 0.3, "intdt": intdt, "f4dt": f4dt,
-           "prior": rng.random() < 0.25}
+           "prior": prior_calls is None and rng.random() < 0.1, "prior_calls": prior_calls, "dtp": dtp, "dtn": dtn}
     n_rel = {"tpr": len(pos), "fnr": len(pos), "tnr": len(neg), "fpr": len(neg)}.get(metric, len(pos) + len(neg))
     n_all = {"tpr": len(pos) + ep, "fnr": len(pos) + ep, "tnr": len(neg) + en, "fpr": len(neg) + en}.get(
         metric, len(pos) + len(neg) + ep + en)
@@ -157,7 +190,11 @@ def build_thr(pid: str, inp, clauses) -> Case:
     rs = [float(common.unjson_num(x)) for x in inp["rs"]]
     inp["rs"] = rs
     pos, neg = expand_scores(inp["pos"]), expand_scores(inp["neg"])
-    if inp.get("intdt"):
+    NPDT = {"f8": np.float64, "i8": np.int64, "f4": np.float32, "u1": np.uint8, "u2": np.uint16}
+    if inp.get("dtp") or inp.get("dtn"):
+        s = Scores(np.array(pos, dtype=NPDT[inp.get("dtp") or "f8"]), np.array(neg, dtype=NPDT[inp.get("dtn") or "f8"]),
+                   nb_easy_pos=inp["ep"], nb_easy_neg=inp["en"], score_class=inp["sc"], equal_class=inp["ec"])
+    elif inp.get("intdt"):
         s = Scores(np.array(pos, dtype=int), np.array(neg, dtype=int), nb_easy_pos=inp["ep"],
                    nb_easy_neg=inp["en"], score_class=inp["sc"], equal_class=inp["ec"])
     elif inp.get("f4dt"):
@@ -174,10 +211,20 @@ def build_thr(pid: str, inp, clauses) -> Case:
         for nm_, args_ in (("threshold_at_topr", (0.5,)), ("threshold_at_tonr", (0.25,)), ("threshold_at_fnr", (0.75,)),
                            ("threshold_at_fpr", (0.125,)), ("cm", (np.array([0.0, 1.0]),)), ("tpr", (0.5,))):
             common.call(getattr(s, nm_), *args_)
+    for pc in inp.get("prior_calls") or []:
+        if pc[0] == "cm":
+            common.call(s.cm, np.array(pc[1]))
+        elif pc[0].startswith("threshold_at_"):
+            common.call(getattr(s, pc[0]), pc[1], method=pc[2])
+        else:
+            common.call(getattr(s, pc[0]), pc[1])
     pre = []
     ex = exact_case(inp)
     scale = max([abs(x) for x in pos + neg] + [1.0]) if not inp.get("big") else 1.0  # integer-valued scores: exact
     th = {}
+    # one target array, kept by the caller and used for all three methods (the way a caller compares the methods, and the
+    # round trip is judged against the targets the caller holds)
+    target_arr = np.array(rs, dtype=float)
     for meth in gen.METHODS:
         if inp["scalar"]:
             vals = []
@@ -192,7 +239,12 @@ def build_thr(pid: str, inp, clauses) -> Case:
                     vals.append(float(res[1]))
             th[meth] = vals
         else:
-            res = common.call(fn, np.array(rs), method=meth)
+            res = common.call(fn, target_arr, method=meth)
+            if not np.array_equal(target_arr, np.array(rs, dtype=float)):
+                pre.append(Issue("PROPFAIL", "targets", f"{name}(targets, {meth}) changed the caller's target array from {rs[:6]} to "
+                                 f"{target_arr.tolist()[:6]} (ep={inp['ep']} en={inp['en']}): the metric at the returned thresholds is no "
+                                 f"longer within one sample of the targets the caller holds", f"thr/{metric}/targets-mutated"))
+                target_arr = np.array(rs, dtype=float)
             if res[0] == "exc":
                 pre.append(Issue("PROPFAIL", "raises", f"{name}({rs},{meth}) raised {res[1]}: {res[2]}", f"thr/raises/{res[1]}"))
                 th[meth] = [0.0] * len(rs)
@@ -225,8 +277,10 @@ def build_thr(pid: str, inp, clauses) -> Case:
         tags.append("float32-dtype")
     if inp.get("big"):
         tags.append("population>=2**19")
-    if inp.get("prior"):
+    if inp.get("prior") or inp.get("prior_calls"):
         tags.append("prior-calls")
+    if inp.get("dtp") or inp.get("dtn"):
+        tags.append(f"dtypes={inp.get('dtp')}/{inp.get('dtn')}")
     if len(set(pos)) < len(pos) or len(set(neg)) < len(neg) or set(pos) & set(neg):
         tags.append("ties")
     if any(r <= 0 or r >= 1 for r in rs):
